@@ -178,11 +178,6 @@ Proof.
       inversion F as [|? ? ? ? G Fr]; subst. cbn [aentries_of]. rewrite discovered_cons.
       destruct G as (_ & _ & _ & _ & _ & _ & _ & _ & _ & _ & Xo). cbn [fst snd] in Xo.
       unfold disc_step. unfold aentry_of at 1. unfold gref_of at 1. rewrite AG.
-      fold (gref_of h (Some i)). unfold gref_of. rewrite AG.
-      change (AFull (v_attrs h) (erased_next pol) (GIndex i) (aname_of enc16 h) (content k))
-        with (AFull (v_attrs h) (erased_next pol)
-                    (if ATTR (v_attrs h) nvar_attr_guid then GInline (v_guid h) else GIndex i)
-                    (aname_of enc16 h) (content k)) at 1.
       destruct (gpos_bound _ _ _ GP) as [B _].
       replace (Z.max (zlen gstore) (i + 1)) with (zlen gstore) by lia.
       destruct (ext_ok _); apply IH; exact Fr.
@@ -191,9 +186,7 @@ Proof.
       inversion F as [|? ? ? ? G Fr]; subst. cbn [aentries_of]. rewrite discovered_cons.
       destruct G as (_ & _ & _ & _ & _ & _ & _ & _ & _ & _ & Xo). cbn [fst snd] in Xo.
       unfold disc_step. unfold aentry_of at 1. unfold gref_of at 1. rewrite AG.
-      replace (ext_ok (AFull (v_attrs h) (erased_next pol) (GIndex (zlen gstore)) (aname_of enc16 h) (content k)))
-        with true.
-      2:{ symmetry. rewrite <- Xo. unfold aentry_of, gref_of. rewrite AG. reflexivity. }
+      rewrite Xo.
       pose proof (zlen_nonneg gstore).
       replace (Z.max (zlen gstore) (zlen gstore + 1)) with (zlen (gstore ++ [v_guid h]))
         by (rewrite zlen_app; change (zlen [v_guid h]) with 1; lia).
